@@ -8,5 +8,6 @@ CONSTANTS
   PerConn = FALSE
   NoWait = FALSE
   MaxWait = 1
+  Batch = 0
 INVARIANT RateBound
 CHECK_DEADLOCK FALSE
